@@ -474,7 +474,7 @@ func ladder(c *ev.Case) {
 func TestC07(t *testing.T) {
 	r := ev.Start(t, "C07")
 	defer r.Finish()
-	r.Rule("programs: grammar (counter loops with JUMPIF, unbounded JUMP/JUMPIF loops, CAT growth loops, nested CHECKPREDICATE with limit 0/small/mid/huge/non-int64 and n 0/exact/too large, big pushes then DROP/2DROP/NIP, alt-stack round trips, hashes, signatures incl. 0-of-0 CHECKMULTISIG, introspection, splice, odd jumps), byte-mutated grammar programs, random well-formed opcode sequences over all opcodes, random byte strings; argument and state-data lists; each program at 3 gas limits from {0,1,7,8,9,10,63,64,65,100,255,256,257,500,1000,2000,4096,10000,20000,65535,100000,300000=consensus.MaxGasAmount} or random <3000, plus limits around the observed peak need; ladder group: every limit 0..need+12 of small programs. distinct = (opcode, class of the decrease of runLimit+deposits across the completed instruction, frame depth)")
+	r.Rule("programs: grammar (counter loops with JUMPIF, unbounded JUMP/JUMPIF loops, CAT growth loops, nested CHECKPREDICATE with limit 0/small/mid/huge/non-int64 and n 0/exact/too large, big pushes then DROP/2DROP/NIP, alt-stack round trips, hashes, signatures incl. 0-of-0 CHECKMULTISIG, introspection, splice, odd jumps), byte-mutated grammar programs, random well-formed opcode sequences over all opcodes, random byte strings; argument and state-data lists; each program at 3 gas limits from {0,1,7,8,9,10,63,64,65,100,255,256,257,500,1000,2000,4096,10000,20000,65535,100000,300000=consensus.MaxGasAmount} or random <3000, plus limits around the observed peak need; ladder group: every limit 0..need+12 of small programs. distinct = (opcode, class of the decrease of runLimit+deposits across the completed instruction, frame depth); the ladder group adds (observed need/16, minimal succeeding limit - observed need) classes")
 	r.Assume("the step hook reports the true run limit and stacks of the executing frame before each instruction; a frame's next event is the witness that its previous instruction completed; arity table of the documented VM1 stack effects is used only to recognise instructions that cannot succeed")
 	r.Assume("gas limits above consensus.MaxGasAmount are outside the quantifier; CHECKPREDICATE's drop is measured on the parent net of what the child's completed instructions consumed")
 
